@@ -23,7 +23,7 @@ RULE = (
     "effective delete or overwrite AND a looked-up absent key that is a proper prefix "
     "of a stored key and ends inside an extension or at a branch/extension node of the "
     "reference trie. Distinct = canonical JSON of the case."
-    " Added after the seeded rounds: half of the cases run in sparse-lookup mode (no automatic look-ups after each step - only generated single look-ups in one spelling - and one sweep at the end), look-change-look probe fragments, re-pointing the same trie object at an earlier root, writing a key's previous value back, keys/values passed as HexBytes or a bytes subclass overriding hex(), values equal to node hashes / encodings / BLANK_NODE_HASH and of up to 66 kB, blocks left by Exception / BaseException / KeyboardInterrupt / falsy exception / KeyError; fixed deep-chain cases (nested prefix keys as deep as set() can build, also read with only 100 frames of stack left)."
+    " Added after the seeded rounds: half of the cases run in sparse-lookup mode (no automatic look-ups after each step - only generated single look-ups in one spelling - and one sweep at the end), look-change-look probe fragments, re-pointing the same trie object at an earlier root, writing a key's previous value back, keys/values passed as HexBytes or a bytes subclass overriding hex(), values equal to node hashes / encodings / BLANK_NODE_HASH and of up to 66 kB, blocks left by Exception / BaseException / KeyboardInterrupt / falsy exception / KeyError; fixed deep-chain cases (nested prefix keys 200 levels deep - or as deep as set() can build if that is less -, also read with only 100 frames of stack left)."
 )
 LEVEL_TEXT = (
     "Exploration by model-based property testing: generated histories are run against "
@@ -59,7 +59,7 @@ def exhaustive(tier):
                     yield {"prune": prune, "ops": list(seq)}
 
     yield (f"all histories of length<={n} over the 6-key universe x (short,long,delete) x prune", gen())
-    yield ("deep chain of nested prefix keys (as deep as set() can build), with and without side branches",
+    yield ("deep chain of nested prefix keys (200 levels, or as deep as set() can build if that is less), with and without side branches",
            iter([{"deep": 0}, {"deep": 1}]))
 
 
